@@ -110,15 +110,18 @@ def splitLines (s : Bytes) : List Bytes :=
 /-- characters that switch off the implicit trailing `**`: `.][*?` -/
 def isGlobChar (c : UInt8) : Bool := c == 46 || c == 93 || c == 91 || c == 42 || c == 63
 
+/-- `strings.TrimPrefix(line, "/")` -/
+def stripSlash : Bytes → Bytes
+  | 47 :: r => r
+  | l => l
+
 /-- one line of the ignore file → pattern (none: blank or comment) -/
 def parseLine (line : Bytes) : Option (List Tok) :=
   let l := trimSpace line
   if l.isEmpty then none
   else if l.head? == some 35 then none
   else
-    let l := match l with
-      | 47 :: r => r
-      | _ => l
+    let l := stripSlash l
     let l := if l.any isGlobChar then l else l ++ [42, 42]
     some (tokens l)
 
